@@ -1169,6 +1169,66 @@ func (g *gen) siteIface() string {
 	return ""
 }
 
+// siteIfaceImplicit: a value becomes an interface value through an implicit conversion
+// other than a variable declaration: call argument, return value, plain assignment,
+// element of a composite literal, append.
+func (g *gen) siteIfaceImplicit() string {
+	istart := g.Pick(len(g.ifaces), "imp-iface")
+	for a := 0; a < len(g.ifaces); a++ {
+		idx := (istart + a) % len(g.ifaces)
+		id := g.ifaces[idx]
+		rstart := g.Pick(len(g.recvs), "imp-recv")
+		for b := 0; b < len(g.recvs); b++ {
+			r := g.recvs[(rstart+b)%len(g.recvs)]
+			forms := g.storeForms(r, idx)
+			if len(forms) == 0 {
+				continue
+			}
+			d := forms[g.Pick(len(forms), "imp-store-form")]
+			g.noteStd(idx)
+			form := g.Pick(5, "imp-form")
+			k := g.types[d.ti].kind
+			if !d.ptr && (k == "int" || k == "string") && (form == 0 || form >= 3) && excl("F-C09-17") {
+				form = 1 + g.Pick(2, "imp-form-alt") // return or assignment
+			}
+			if form == 4 && excl("F-C09-18") {
+				form = g.Pick(4, "imp-form-noappend")
+				if !d.ptr && (k == "int" || k == "string") && (form == 0 || form == 3) && excl("F-C09-17") {
+					form = 1
+				}
+			}
+			iv := g.Local("iv")
+			var st string
+			switch form {
+			case 0:
+				g.Tag("iface-implicit:call-argument")
+				st = fmt.Sprintf("%s := %sId%d(%s)\n", iv, g.Px, idx, d.text)
+			case 1:
+				g.Tag("iface-implicit:return-value")
+				st = fmt.Sprintf("%s := func() %s { return %s }()\n", iv, id.text(), d.text)
+			case 2:
+				g.Tag("iface-implicit:assignment")
+				st = fmt.Sprintf("var %s %s\n%s = %s\n", iv, id.text(), iv, d.text)
+			case 3:
+				g.Tag("iface-implicit:composite-literal-element")
+				st = fmt.Sprintf("%s := []%s{%s}[0]\n", iv, id.text(), d.text)
+			default:
+				g.Tag("iface-implicit:append")
+				l := g.Local("il")
+				st = fmt.Sprintf("var %s []%s\n%s = append(%s, %s)\n%s := %s[0]\n", l, id.text(), l, l, d.text, iv, l)
+			}
+			if k == "int" || k == "string" {
+				g.Tag("iface-implicit:named-basic-type")
+			}
+			if id.std == "sort.Interface" {
+				st += fmt.Sprintf("sort.Sort(%s)\n", iv)
+			}
+			return st + g.callsOn(iv, idx) + g.obsStmt(r)
+		}
+	}
+	return ""
+}
+
 // concrete target types for assertions and type-switch cases
 type target struct {
 	text  string
@@ -1504,7 +1564,7 @@ func (g *gen) siteTypeSwitch() string {
 func (g *gen) site() string {
 	for try := 0; try < 4; try++ {
 		var s string
-		switch k := g.Pick(24, "site"); {
+		switch k := g.Pick(26, "site"); {
 		case k < 3:
 			s = g.siteFieldRead()
 		case k < 5:
@@ -1521,8 +1581,10 @@ func (g *gen) site() string {
 			s = g.siteAssertAny()
 		case k < 20:
 			s = g.siteTypeSwitch()
-		default:
+		case k < 24:
 			s = g.siteTypeSwitchMixed()
+		default:
+			s = g.siteIfaceImplicit()
 		}
 		if s != "" {
 			return s
@@ -1546,6 +1608,10 @@ func (g *gen) declareAll() {
 		if id.std == "" {
 			g.Decls = append(g.Decls, g.ifaceDeclText(id))
 		}
+	}
+	for k, id := range g.ifaces {
+		// identity functions: an argument is converted to the parameter's interface type
+		g.Decls = append(g.Decls, fmt.Sprintf("func %sId%d(i %s) %s { return i }", g.Px, k, id.text(), id.text()))
 	}
 	for i, td := range g.types {
 		g.Decls = append(g.Decls,
